@@ -14,12 +14,12 @@ Definition abs_pc (nil : bool) (st : bstate) : pc :=
 Definition panic_of (msg : bytes) : panic :=
   if bytes_eqb msg p_toolarge then PTooLarge
   else if bytes_eqb msg p_negread then PNegRead
-  else match msg with
-       | _ :: _ :: _ :: _ :: _ :: _ :: _ :: _ :: _ :: _ :: _ :: _ :: _ :: _ :: _ :: _ :: _ :: _ :: _ :: _ :: c :: _ =>
-           (* "logg/slog.PrintCtx: t.." / "logg/slog.PrintCtx.G.." / "logg/slog.PrintCtx.W.." *)
-           if bz c =? 116 then PTruncate else if bz c =? 71 then PGrowNeg else PWriteToCount
-       | _ => PRange
+  else match skipn 19 msg with
+       (* logg/slog.PrintCtx: truncation.. | logg/slog.PrintCtx.Grow: .. | logg/slog.PrintCtx.WriteTo: .. *)
+       | c :: _ => if bz c =? 32 then PTruncate else if bz c =? 71 then PGrowNeg else if bz c =? 87 then PWriteToCount else PRange
+       | [] => PRange
        end.
+Definition err_is_enil (e : err) : bool := match e with ENil => true | _ => false end.
 
 (* a generated result as (state afterwards, result) of the model; [res] says how the returned values
    of this method appear in a [Res] *)
@@ -39,6 +39,13 @@ Definition res_read (v : Z * err) (p : gslice) : result := Res [fst v] (firstn (
 Definition bview_read (nil : bool) (r : bres (Z * err) (bstate * gslice)) : pc * result :=
   match r with
   | BOk v (st, p) => (abs_pc nil st, res_read v p)
+  | BRange (st, _) => (abs_pc nil st, Panicked PRange)
+  | BPanic m (st, _) => (abs_pc nil st, Panicked (panic_of m))
+  end.
+
+Definition bview_wt (nil : bool) (r : bres (Z * err) (bstate * list bytes)) : pc * result :=
+  match r with
+  | BOk v (st, tr) => (abs_pc nil st, Res [fst v] (concat tr) (snd v))
   | BRange (st, _) => (abs_pc nil st, Panicked PRange)
   | BPanic m (st, _) => (abs_pc nil st, Panicked (panic_of m))
   end.
@@ -198,4 +205,37 @@ Definition buf_unread_byte_ref (s_buf : gslice) (s_off s_lastRead : Z) : bres er
   s_off
   else s_off in
   BOk (ENil) (s_buf, s_off, s_lastRead).
+
+(* PrintCtx.WriteTo  (BOk results state | BRange state | BPanic v state) *)
+Definition buf_write_to_ref (s_buf : gslice) (s_off s_lastRead : Z) (w : unit) (w_m : Z) (w_e : err) (tr_ : list bytes) : bres (Z * err) (bstate * list bytes) :=
+  let n := 0 in
+  let err := ENil in
+  let s_lastRead := 0 in
+  let nBytes := (buf_len_ref s_buf s_off s_lastRead) in
+  if (0 <? nBytes)
+  then match sl_from s_buf s_off with
+    | None => BRange (s_buf, s_off, s_lastRead, tr_)
+    | Some r1_ => let '(m, e) := (w_m, w_e) in
+      let tr_ := tr_ ++ [sl_bytes r1_] in
+      if (nBytes <? m)
+      then BPanic [x6c;x6f;x67;x67;x2f;x73;x6c;x6f;x67;x2e;x50;x72;x69;x6e;x74;x43;x74;x78;x2e;x57;x72;x69;x74;x65;x54;x6f;x3a;x20;x69;x6e;x76;x61;x6c;x69;x64;x20;x57;x72;x69;x74;x65;x20;x63;x6f;x75;x6e;x74] (s_buf, s_off, s_lastRead, tr_)
+      else let s_off := (s_off + m) in
+      let n := m in
+      if (negb (err_is_enil e))
+      then BOk ((n, e)) (s_buf, s_off, s_lastRead, tr_)
+      else if (negb (m =? nBytes))
+      then BOk ((n, EShortWrite)) (s_buf, s_off, s_lastRead, tr_)
+      else match buf_reset_ref s_buf s_off s_lastRead with
+      | BOk _ st_ => let '(s_buf, s_off, s_lastRead) := st_ in
+        BOk ((n, ENil)) (s_buf, s_off, s_lastRead, tr_)
+      | BRange st_ => let '(s_buf, s_off, s_lastRead) := st_ in BRange (s_buf, s_off, s_lastRead, tr_)
+      | BPanic p_ st_ => let '(s_buf, s_off, s_lastRead) := st_ in BPanic p_ (s_buf, s_off, s_lastRead, tr_)
+      end
+    end
+  else match buf_reset_ref s_buf s_off s_lastRead with
+    | BOk _ st_ => let '(s_buf, s_off, s_lastRead) := st_ in
+      BOk ((n, ENil)) (s_buf, s_off, s_lastRead, tr_)
+    | BRange st_ => let '(s_buf, s_off, s_lastRead) := st_ in BRange (s_buf, s_off, s_lastRead, tr_)
+    | BPanic p_ st_ => let '(s_buf, s_off, s_lastRead) := st_ in BPanic p_ (s_buf, s_off, s_lastRead, tr_)
+    end.
 
